@@ -417,14 +417,18 @@ func writeLinkEvents(dir string, opts GlobalOptions, eventType string, edges []s
 	})
 }
 
-func createTask(dir string, opts GlobalOptions, epicID string, isEpic bool, title, body string) (createOutput, error) {
+// createTask creates a task or epic. For tasks, updates may carry initial
+// state/claim/result fields (same keys as set); they are validated and written
+// together with the create event. Pass nil updates for a plain create.
+func createTask(dir string, opts GlobalOptions, epicID string, isEpic bool, title, body string, updates map[string]string, agentID string) (createOutput, error) {
 	eventsPath := getEventsPath(dir)
 	lockPath := filepath.Join(dir, "lock")
-	return createTaskWithDir(dir, opts, lockPath, eventsPath, epicID, isEpic, title, body)
+	return createTaskWithDir(dir, opts, lockPath, eventsPath, epicID, isEpic, title, body, updates, agentID)
 }
 
-func createTaskWithDir(dir string, opts GlobalOptions, lockPath, eventsPath, epicID string, isEpic bool, title, body string) (createOutput, error) {
+func createTaskWithDir(dir string, opts GlobalOptions, lockPath, eventsPath, epicID string, isEpic bool, title, body string, updates map[string]string, agentID string) (createOutput, error) {
 	var output createOutput
+	repoDir := filepath.Dir(dir)
 	err := withLock(lockPath, syscall.LOCK_EX, func() error {
 		graph, err := loadGraph(dir)
 		if err != nil {
@@ -476,7 +480,60 @@ func createTaskWithDir(dir string, opts GlobalOptions, lockPath, eventsPath, epi
 		if err != nil {
 			return err
 		}
-		if err := appendEvents(eventsPath, []Event{event}); err != nil {
+		newEvents := []Event{event}
+		finalState := stateTodo
+		if len(updates) > 0 {
+			// Initial state/claim/result: same rules as set, applied to the task
+			// as it will exist once the create event is written.
+			task := &Task{
+				ID:        id,
+				UUID:      uuid,
+				EpicID:    payload.EpicID,
+				State:     stateTodo,
+				Title:     title,
+				Body:      body,
+				CreatedAt: now,
+				UpdatedAt: now,
+			}
+			resultPath, hasPath := updates["result.path"]
+			resultSummary, hasSummary := updates["result.summary"]
+			if hasPath || hasSummary {
+				if !hasPath {
+					return errors.New("result.summary requires result.path=")
+				}
+				if !hasSummary {
+					return errors.New("result.path requires result.summary=")
+				}
+				graph.Tasks[id] = task
+				resultEvent, err := buildResultEvent(graph, repoDir, id, resultSummary, resultPath)
+				if err != nil {
+					return err
+				}
+				newEvents = append(newEvents, resultEvent)
+				delete(updates, "result.path")
+				delete(updates, "result.summary")
+			}
+			if len(updates) > 0 {
+				if state, ok := updates["state"]; ok {
+					finalState = state
+				} else if updates["claim"] != "" {
+					finalState = stateDoing
+				}
+				setEvents, remainingUpdates, err := buildSetEvents(id, task, updates, agentID, now, identityBodyResolver)
+				if err != nil {
+					return err
+				}
+				if len(remainingUpdates) > 0 {
+					var unknown []string
+					for key := range remainingUpdates {
+						unknown = append(unknown, key)
+					}
+					return fmt.Errorf("unknown keys: %s", strings.Join(unknown, ", "))
+				}
+				newEvents = append(newEvents, setEvents...)
+			}
+		}
+		if err := appendEvents(eventsPath, newEvents); err != nil {
 			return err
 		}
 		kind := "task"
@@ -488,7 +545,7 @@ func createTaskWithDir(dir string, opts GlobalOptions, lockPath, eventsPath, epi
 			ID:        id,
 			UUID:      uuid,
 			EpicID:    payload.EpicID,
-			State:     stateTodo,
+			State:     finalState,
 			Title:     title,
 			Body:      body,
 			CreatedAt: payload.CreatedAt,
